@@ -7,6 +7,7 @@ CONSTANTS
   MaxTs = 2
   MaxRepl = 3
   MaxWrites = 2
+  MergeRestamp = TRUE
   NoSkew = TRUE
   ArmQuota = 2
   EnableRename = FALSE
